@@ -226,6 +226,10 @@ func (ev *Eval) ev(e SExpr) (sval, error) {
 			if s, ok, err := ev.objVal(o); ok || err != nil {
 				return s, err
 			}
+			// a type name used as a value: its dynamic-type tag (for typeOf(x) == (uint32))
+			if tn, ok := o.(*types.TypeName); ok {
+				return sval{v: Val{Typ: tagMarker, Comps: []Term{intLit(tagOf(tn.Type()))}}}, nil
+			}
 		}
 		return sval{}, fmt.Errorf("unresolved identifier %q", x.Name)
 	case *SSel:
